@@ -375,7 +375,7 @@ pub fn run(ctx: &mut Ctx) {
     }
     // long starting sequences, short histories
     for id in ALL_CODECS {
-        let lens = gen::long_lens(ctx.thorough(), ctx.seed);
+        let lens = gen::long_lens_bits(id.bits(), ctx.thorough(), ctx.seed);
         ctx.forall_lens(&format!("histories_long/{}", id.name()), &lens, |n| (gen::owned_spec_n(id, n), vec(op(id), 1..=5)).prop_map(move |(start, ops)| Case { codec: id, start, ops }), dispatch);
         // long arguments into short and long targets
         ctx.forall_lens(
